@@ -39,7 +39,8 @@ fn gen_desc_plan(seed: u64) -> DescPlan {
     let bases = ["abcd", "a_b_c", "xyxy", "m_total", "aaaa"];
     let base = *r.pick(&bases);
     let label_names = ["a", "ab", "b", "a_b", "c"];
-    let help_pool = ["h", "hh", "h a", "ha", "a"];
+    // (help texts that end in what the marker of a variable label could look like)
+    let help_pool = ["h", "hh", "h a", "ha", "a", "h$a", "h$ab", "h$a$b", "h$c"];
     let mut descs = vec![];
     for _ in 0..n {
         // name/value boundary shifts: fq_name and first constant value are a split of one string
@@ -359,7 +360,7 @@ pub fn model_accepts(c: &Creation) -> bool {
 const NAME_POOL: &[&str] = &["m", "req_total", "a:b", ":x", "_y", "é", "mé", "9m", "m9", "", "m-1", "m 1", "M", "ｍ", "m\u{301}", "٣x", "x٣"];
 // ("a:b", ":x" and "m9" are also in NAME_POOL: a string that was accepted as a metric name earlier on
 // the same thread must still be refused as a label name if it is not one)
-const LABEL_POOL: &[&str] = &["l", "le", "a", "a_1", "_a", "1a", "", "l:1", "é", "lé", "l-1", "L", "le ", "٣", "a٣", "__n", ":", "a:", ":a", "a.b", "a\u{0}", "a:b", ":x", "a:b", "m9"];
+const LABEL_POOL: &[&str] = &["l", "le", "a", "a_1", "_a", "1a", "", "l:1", "é", "lé", "l-1", "L", "le ", "٣", "a٣", "__n", ":", "a:", ":a", "a.b", "a\u{0}", "a:b", ":x", "a:b", "m9", "$l", "$a", "$"];
 const HELP_POOL: &[&str] = &["help", "", " ", "h\nh"];
 
 fn gen_creation(r: &mut Rng) -> Creation {
